@@ -100,6 +100,9 @@ pub fn run(ctx: &Ctx) -> Report {
         } else {
             match mode {
                 0 => (300usize, 2usize, 1usize),
+                // one case of the group: a reply of more than 2^16 packets (the id wraps 256 times and
+                // more; anything that counts the packets of a reply passes 65 535)
+                1 if i == 1 => (1, 70_000 + rng.below(2000) as usize, 1),
                 1 => (2, rng.range(520, 700) as usize, 1),
                 _ => (3, rng.range(60, 120) as usize, 6),
             }
